@@ -304,6 +304,9 @@ fn line_piece() -> BoxedStrategy<Piece> {
         3 => proptest::sample::select(vec!['。', '！', '?', '.', '、', '「', '」', ' ', 'あ', 'a', '1', '　', '\t', '\r']).prop_map(Piece::Ch),
         2 => pool_char().prop_map(Piece::Ch),
         1 => "[0-9一二十,.]{1,5}".prop_map(Piece::Num),
+        // well-formed numerals with a thousands separator, a decimal point or units: the numeral plugin reads the
+        // normalised forms of the digits and separators, which an output format that prints surfaces only does not need
+        2 => prop_oneof!["[1-9][0-9]{0,2}(,[0-9]{3}){1,2}", "[0-9]{1,3}\\.[0-9]{1,3}", "[1-9][0-9]{0,2}(,[0-9]{3})\\.[0-9]{1,2}", "[一二三四五][十百千万][一二三]?", "[1-9][0-9]?[十百千万億]"].prop_map(Piece::Num),
         1 => Just(Piece::Ch('\r')),
     ]
     .boxed()
